@@ -143,7 +143,7 @@ public:
 
 	HashMap(int n)
 	{
-		a.resize(nextPoT(n)+ASL_HMAP_SKIP);
+		a.resize(nextPoT(n < 1 ? 1 : n)+ASL_HMAP_SKIP);
 		for(int i=0; i<a.length(); i++)
 			a[i] = 0;
 		asl_construct((AtomicCount*)&a[1]);
